@@ -1072,10 +1072,13 @@ def sequence_features(muts, batched=True, spec=None):
         'rename_to_baseline_name': False,
         'null_roundtrip': False,
         'column_name_chain': False,
+        'chain_names': [],
+        'type_change_names': [],
         'added_relation_then_target_renamed': False,
     }
     alias = {}
     name_setters = {}            # field -> number of column-name deciders
+    chain_candidates = {}        # field -> names it had / got
     added_relations = set()      # target model names of added relations
     notnull_fixed = set()
     changed_fields = set()
@@ -1093,6 +1096,7 @@ def sequence_features(muts, batched=True, spec=None):
     ut_members = set()
     constraints_seen = set()
     added = {}
+    ever_added = set()
     renamed_to = set()
     meta_refs = {}
     renamed_models = set()
@@ -1160,6 +1164,10 @@ def sequence_features(muts, batched=True, spec=None):
                key in meta_refs and batched:
                 feats['noop_field_in_changemeta'] = True
         elif kind == 'AddField':
+            if key in ever_added and batched:
+                feats['readded'].append(desc[2])
+
+            ever_added.add(key)
             added[key] = True
             changed_fields.add(key)
             related = (desc[4] or {}).get('related_model')
@@ -1176,6 +1184,14 @@ def sequence_features(muts, batched=True, spec=None):
 
             if name_setters[new_key] >= 2 and batched:
                 feats['column_name_chain'] = True
+
+            chain_candidates.setdefault(new_key, set()).update(
+                chain_candidates.pop(key, set()) |
+                set([desc[2], desc[3], (desc[4] or {}).get('db_column')]))
+
+            if name_setters[new_key] >= 2 and batched:
+                feats['chain_names'] = sorted(set(feats['chain_names']) | set(
+                    n for n in chain_candidates[new_key] if n))
 
             if key in changed_fields:
                 changed_fields.add(new_key)
@@ -1211,6 +1227,7 @@ def sequence_features(muts, batched=True, spec=None):
 
                 if key in changed_fields and batched:
                     feats['changefield_then_type_change'] = True
+                    feats['type_change_names'].append(desc[2])
 
                 if key in custom_col and not kwargs.get('db_column'):
                     feats['type_change_custom_column'] = True
@@ -1230,8 +1247,14 @@ def sequence_features(muts, batched=True, spec=None):
             if 'db_column' in kwargs:
                 name_setters[key] = name_setters.get(key, 0) + 1
 
+                chain_candidates.setdefault(key, set()).update(
+                    [desc[2], kwargs['db_column']])
+
                 if name_setters[key] >= 2 and batched:
                     feats['column_name_chain'] = True
+                    feats['chain_names'] = sorted(
+                        set(feats['chain_names']) |
+                        set(n for n in chain_candidates[key] if n))
 
             if 'db_column' in kwargs:
                 column_fields.add(key)
@@ -1328,15 +1351,6 @@ def classify_by_scenario(atom, ctx):
         table in ctx.get('renamed_tables', [])):
         return 'rename-model-not-tracked-in-database-state'
 
-    if feats.get('column_name_chain') and kind in (
-            'column-missing', 'column-extra', 'index-missing',
-            'index-extra', 'foreign-key-missing', 'foreign-key-extra'):
-        return 'optimizer-collapses-column-name-chain'
-
-    if (feats.get('changefield_then_type_change') and
-        kind in ('index-extra', 'index-missing', 'column-differs')):
-        return 'optimizer-merges-changefield-across-type-change'
-
     if kind == 'column-missing' and any(
             item[0] in (name, name + '_id')
             for name in feats.get('readded', [])):
@@ -1351,6 +1365,21 @@ def classify_by_scenario(atom, ctx):
         and any(col is None or col in feats['readded']
                 for col in item[1])):
         return 'delete-and-readd-same-column-in-one-run'
+
+    text = json.dumps(item)
+
+    if feats.get('column_name_chain') and kind in (
+            'column-missing', 'column-extra', 'index-missing',
+            'index-extra', 'foreign-key-missing', 'foreign-key-extra') and \
+       any('"%s"' % name in text or '"%s_id"' % name in text
+           for name in feats.get('chain_names', [])):
+        return 'optimizer-collapses-column-name-chain'
+
+    if (feats.get('changefield_then_type_change') and
+        kind in ('index-extra', 'index-missing', 'column-differs') and
+        any('"%s"' % name in text
+            for name in feats.get('type_change_names', []))):
+        return 'optimizer-merges-changefield-across-type-change'
 
     if kind in ('index-missing', 'index-extra'):
         if feats.get('index_and_column_changed') and len(item[1]) == 1:
@@ -1620,6 +1649,28 @@ def _collect(suite_id, scenarios, known_list, rule, exhaustive, t0,
         'rule': rule,
         'elapsed': round(time.time() - t0, 2),
     }
+
+
+def _replay(suite_id, inputs, clause=None):
+    _setup()
+    out = _eval_task((suite_id, inputs))
+    clauses = sorted(set(c for c, _o in out['failures']))
+    known_list = {'C01': KNOWN_C01, 'C02': KNOWN_C02, 'C03': KNOWN_C03,
+                  'C18': KNOWN_C18}[suite_id]
+    failures = []
+
+    for failed_clause, observed in out['failures']:
+        entry = _known_match(known_list, failed_clause, inputs, observed)
+        failures.append({'clause': failed_clause,
+                         'observed': H.to_jsonable(observed),
+                         'known': entry is not None,
+                         'known_id': entry['id'] if entry else None})
+
+    return {'reproduced': (clause in clauses) if clause else bool(clauses),
+            'clauses': clauses,
+            'failures': failures,
+            'skipped': out.get('skipped'),
+            'internal_error': out.get('internal_error')}
 
 
 # ---------------------------------------------------------------------------
@@ -2347,15 +2398,11 @@ def suite_C03(tier='quick', seed=0):
     return result
 
 
-def replay_C03(inputs):
-    _setup()
-    out = _eval_task(('C03', inputs))
+def replay_C03(inputs, clause=None):
+    """Re-run ONE scenario; ``reproduced`` = some clause (or ``clause``, if
+    given) still fails on the tree under test."""
+    return _replay('C03', inputs, clause)
 
-    return {'reproduced': bool(out['failures']),
-            'clauses': sorted(set(c for c, _o in out['failures'])),
-            'failures': H.to_jsonable(out['failures']),
-            'skipped': out.get('skipped'),
-            'internal_error': out.get('internal_error')}
 
 
 # ---------------------------------------------------------------------------
@@ -3353,15 +3400,11 @@ def suite_C01(tier='quick', seed=0):
                     budget=55 if tier == 'quick' else 14 * 60)
 
 
-def replay_C01(inputs):
-    _setup()
-    out = _eval_task(('C01', inputs))
+def replay_C01(inputs, clause=None):
+    """Re-run ONE scenario; ``reproduced`` = some clause (or ``clause``, if
+    given) still fails on the tree under test."""
+    return _replay('C01', inputs, clause)
 
-    return {'reproduced': bool(out['failures']),
-            'clauses': sorted(set(c for c, _o in out['failures'])),
-            'failures': H.to_jsonable(out['failures']),
-            'skipped': out.get('skipped'),
-            'internal_error': out.get('internal_error')}
 
 
 # ---------------------------------------------------------------------------
@@ -3671,15 +3714,11 @@ def suite_C02(tier='quick', seed=0):
                     True, t0, budget=55 if tier == 'quick' else 14 * 60)
 
 
-def replay_C02(inputs):
-    _setup()
-    out = _eval_task(('C02', inputs))
+def replay_C02(inputs, clause=None):
+    """Re-run ONE scenario; ``reproduced`` = some clause (or ``clause``, if
+    given) still fails on the tree under test."""
+    return _replay('C02', inputs, clause)
 
-    return {'reproduced': bool(out['failures']),
-            'clauses': sorted(set(c for c, _o in out['failures'])),
-            'failures': H.to_jsonable(out['failures']),
-            'skipped': out.get('skipped'),
-            'internal_error': out.get('internal_error')}
 
 
 # ---------------------------------------------------------------------------
@@ -3906,15 +3945,11 @@ def suite_C18(tier='quick', seed=0):
                     t0, budget=55 if tier == 'quick' else 14 * 60)
 
 
-def replay_C18(inputs):
-    _setup()
-    out = _eval_task(('C18', inputs))
+def replay_C18(inputs, clause=None):
+    """Re-run ONE scenario; ``reproduced`` = some clause (or ``clause``, if
+    given) still fails on the tree under test."""
+    return _replay('C18', inputs, clause)
 
-    return {'reproduced': bool(out['failures']),
-            'clauses': sorted(set(c for c, _o in out['failures'])),
-            'failures': H.to_jsonable(out['failures']),
-            'skipped': out.get('skipped'),
-            'internal_error': out.get('internal_error')}
 
 
 # ---------------------------------------------------------------------------
@@ -4408,6 +4443,43 @@ def initial_param_order_mismatch(spec, muts, batched=True):
 
             if changed:
                 break
+
+    # All ChangeFields of one field in a batch are rolled up into the FIRST
+    # one (AppMutator._copy_change_attrs), which keeps its position.
+    index = 0
+
+    while index < len(muts):
+        desc = muts[index]
+
+        if desc[0] == 'ChangeField':
+            later_index = index + 1
+
+            while later_index < len(muts):
+                later = muts[later_index]
+
+                if later[0] == 'SQLMutation':
+                    break
+
+                if later[0] in ('RenameField', 'DeleteField', 'AddField',
+                                'RenameModel', 'DeleteModel') and (
+                        later[1] == desc[1] and
+                        desc[2] in later[2:4] or
+                        later[0] in ('RenameModel', 'DeleteModel') and
+                        later[1] == desc[1]):
+                    break
+
+                if (later[0] == 'ChangeField' and later[1] == desc[1] and
+                    later[2] == desc[2]):
+                    merged = dict(desc[3])
+                    merged.update(later[3])
+                    muts[index] = desc = ['ChangeField', desc[1], desc[2],
+                                          merged]
+                    del muts[later_index]
+                    continue
+
+                later_index += 1
+
+        index += 1
 
     # RenameModel(x -> y) ... RenameModel(y -> x) collapses to a no-op
     # rename; mutations in between naming y really act on x.
@@ -5008,7 +5080,4653 @@ KNOWN_C03.extend([
 # ---------------------------------------------------------------------------
 
 # --- BEGIN GENERATED WITNESSES ---
-_WITNESS_JSON = '{}'
+_WITNESS_JSON = r'''
+{
+ "C01|accepted-evolution-crashes|changefield-related_model-unsupported": {
+  "bystanders": [
+   "Z"
+  ],
+  "family": "hinted",
+  "muts": null,
+  "pair": [
+   "plus-int",
+   "plus-fk"
+  ],
+  "rows": {
+   "P": [
+    {
+     "name": "plai#0"
+    }
+   ],
+   "T": [
+    {
+     "c": "0plain",
+     "i": 11,
+     "n": 11,
+     "u": "plai#0",
+     "x": 11
+    }
+   ],
+   "Z": [
+    {
+     "z1": "plai#0",
+     "z2": 11
+    }
+   ]
+  },
+  "spec": {
+   "P": {
+    "fields": {
+     "name": [
+      "CharField",
+      {
+       "max_length": 20,
+       "unique": true
+      }
+     ]
+    },
+    "meta": {}
+   },
+   "T": {
+    "fields": {
+     "c": [
+      "CharField",
+      {
+       "max_length": 20
+      }
+     ],
+     "i": [
+      "IntegerField",
+      {
+       "null": true
+      }
+     ],
+     "n": [
+      "IntegerField",
+      {
+       "null": true
+      }
+     ],
+     "u": [
+      "CharField",
+      {
+       "max_length": 10,
+       "unique": true
+      }
+     ],
+     "x": [
+      "IntegerField",
+      {
+       "db_index": true
+      }
+     ]
+    },
+    "meta": {}
+   },
+   "Z": {
+    "fields": {
+     "z1": [
+      "CharField",
+      {
+       "max_length": 8,
+       "unique": true
+      }
+     ],
+     "z2": [
+      "IntegerField",
+      {
+       "db_index": true
+      }
+     ]
+    },
+    "meta": {
+     "unique_together": [
+      [
+       "z1",
+       "z2"
+      ]
+     ]
+    }
+   }
+  },
+  "target": {
+   "P": {
+    "fields": {
+     "name": [
+      "CharField",
+      {
+       "max_length": 20,
+       "unique": true
+      }
+     ]
+    },
+    "meta": {}
+   },
+   "T": {
+    "fields": {
+     "c": [
+      "CharField",
+      {
+       "max_length": 20
+      }
+     ],
+     "i": [
+      "IntegerField",
+      {
+       "null": true
+      }
+     ],
+     "n": [
+      "ForeignKey",
+      {
+       "null": true,
+       "to": "P"
+      }
+     ],
+     "u": [
+      "CharField",
+      {
+       "max_length": 10,
+       "unique": true
+      }
+     ],
+     "x": [
+      "IntegerField",
+      {
+       "db_index": true
+      }
+     ]
+    },
+    "meta": {}
+   },
+   "Z": {
+    "fields": {
+     "z1": [
+      "CharField",
+      {
+       "max_length": 8,
+       "unique": true
+      }
+     ],
+     "z2": [
+      "IntegerField",
+      {
+       "db_index": true
+      }
+     ]
+    },
+    "meta": {
+     "unique_together": [
+      [
+       "z1",
+       "z2"
+      ]
+     ]
+    }
+   }
+  }
+ },
+ "C01|accepted-evolution-crashes|optimizer-field-ids-ignore-model-renames": {
+  "bystanders": [
+   "Z"
+  ],
+  "family": "sequence",
+  "muts": [
+   [
+    "RenameModel",
+    "A",
+    "C",
+    "tests_a"
+   ],
+   [
+    "RenameField",
+    "C",
+    "a1",
+    "r",
+    {
+     "db_column": "col_r"
+    }
+   ],
+   [
+    "RenameModel",
+    "C",
+    "A",
+    "tests_a"
+   ],
+   [
+    "DeleteField",
+    "A",
+    "r"
+   ]
+  ],
+  "rows": {
+   "A": [
+    {
+     "a1": "first",
+     "a2": 1,
+     "a3": "x"
+    }
+   ],
+   "B": [
+    {
+     "b1": 10,
+     "ref": 1
+    }
+   ],
+   "Z": [
+    {
+     "z1": "z-one",
+     "z2": 1
+    }
+   ]
+  },
+  "spec": "@SEQ_SPEC"
+ },
+ "C01|accepted-evolution-crashes|optimizer-noop-field-still-referenced": {
+  "bystanders": [
+   "Z"
+  ],
+  "family": "sequence",
+  "muts": [
+   [
+    "AddField",
+    "A",
+    "y",
+    "IntegerField",
+    {
+     "initial": 7
+    }
+   ],
+   [
+    "ChangeMeta",
+    "A",
+    "unique_together",
+    [
+     [
+      "a1",
+      "y"
+     ]
+    ]
+   ],
+   [
+    "ChangeField",
+    "A",
+    "a3",
+    {
+     "max_length": 15
+    }
+   ],
+   [
+    "DeleteField",
+    "A",
+    "y"
+   ],
+   [
+    "AddField",
+    "B",
+    "x",
+    "CharField",
+    {
+     "initial": "i'%",
+     "max_length": 8
+    }
+   ]
+  ],
+  "rows": {
+   "A": [
+    {
+     "a1": "first",
+     "a2": 1,
+     "a3": "x"
+    }
+   ],
+   "B": [
+    {
+     "b1": 10,
+     "ref": 1
+    }
+   ],
+   "Z": [
+    {
+     "z1": "z-one",
+     "z2": 1
+    }
+   ]
+  },
+  "spec": "@SEQ_SPEC"
+ },
+ "C01|accepted-evolution-crashes|rename-model-not-tracked-in-database-state": {
+  "bystanders": [
+   "Z"
+  ],
+  "family": "sequence",
+  "muts": [
+   [
+    "RenameModel",
+    "A",
+    "C",
+    "tests_c"
+   ],
+   [
+    "ChangeField",
+    "C",
+    "a3",
+    {
+     "unique": true
+    }
+   ]
+  ],
+  "rows": {
+   "A": [
+    {
+     "a1": "first",
+     "a2": 1,
+     "a3": "x"
+    }
+   ],
+   "B": [
+    {
+     "b1": 10,
+     "ref": 1
+    }
+   ],
+   "Z": [
+    {
+     "z1": "z-one",
+     "z2": 1
+    }
+   ]
+  },
+  "spec": "@SEQ_SPEC"
+ },
+ "C01|accepted-evolution-crashes|reset-db_column-or-db_table-crashes": {
+  "bystanders": [
+   "Z"
+  ],
+  "family": "change-plain",
+  "muts": [
+   [
+    "ChangeField",
+    "T",
+    "n",
+    {
+     "db_table": "moved_m2m"
+    }
+   ]
+  ],
+  "rows": {
+   "P": [
+    {
+     "name": "plai#0"
+    }
+   ],
+   "T": [
+    {
+     "c": "0plain",
+     "i": 11,
+     "u": "plai#0",
+     "x": 11
+    }
+   ],
+   "Z": [
+    {
+     "z1": "plai#0",
+     "z2": 11
+    }
+   ],
+   "tests_t_n": [
+    {
+     "p_id": 1,
+     "t_id": 1
+    }
+   ]
+  },
+  "spec": {
+   "P": {
+    "fields": {
+     "name": [
+      "CharField",
+      {
+       "max_length": 20,
+       "unique": true
+      }
+     ]
+    },
+    "meta": {}
+   },
+   "T": {
+    "fields": {
+     "c": [
+      "CharField",
+      {
+       "max_length": 20
+      }
+     ],
+     "i": [
+      "IntegerField",
+      {
+       "null": true
+      }
+     ],
+     "n": [
+      "ManyToManyField",
+      {
+       "to": "P"
+      }
+     ],
+     "u": [
+      "CharField",
+      {
+       "max_length": 10,
+       "unique": true
+      }
+     ],
+     "x": [
+      "IntegerField",
+      {
+       "db_index": true
+      }
+     ]
+    },
+    "meta": {}
+   },
+   "Z": {
+    "fields": {
+     "z1": [
+      "CharField",
+      {
+       "max_length": 8,
+       "unique": true
+      }
+     ],
+     "z2": [
+      "IntegerField",
+      {
+       "db_index": true
+      }
+     ]
+    },
+    "meta": {
+     "unique_together": [
+      [
+       "z1",
+       "z2"
+      ]
+     ]
+    }
+   }
+  }
+ },
+ "C01|schema-equals-fresh|check-constraint-taken-for-index": {
+  "bystanders": [
+   "Z"
+  ],
+  "family": "change-plain",
+  "muts": [
+   [
+    "ChangeField",
+    "T",
+    "n",
+    {
+     "db_index": true
+    }
+   ]
+  ],
+  "rows": {
+   "P": [
+    {
+     "name": "plai#0"
+    }
+   ],
+   "T": [
+    {
+     "c": "0plain",
+     "i": 11,
+     "n": 10,
+     "u": "plai#0",
+     "x": 11
+    }
+   ],
+   "Z": [
+    {
+     "z1": "plai#0",
+     "z2": 11
+    }
+   ]
+  },
+  "spec": {
+   "P": {
+    "fields": {
+     "name": [
+      "CharField",
+      {
+       "max_length": 20,
+       "unique": true
+      }
+     ]
+    },
+    "meta": {}
+   },
+   "T": {
+    "fields": {
+     "c": [
+      "CharField",
+      {
+       "max_length": 20
+      }
+     ],
+     "i": [
+      "IntegerField",
+      {
+       "null": true
+      }
+     ],
+     "n": [
+      "PositiveIntegerField",
+      {}
+     ],
+     "u": [
+      "CharField",
+      {
+       "max_length": 10,
+       "unique": true
+      }
+     ],
+     "x": [
+      "IntegerField",
+      {
+       "db_index": true
+      }
+     ]
+    },
+    "meta": {}
+   },
+   "Z": {
+    "fields": {
+     "z1": [
+      "CharField",
+      {
+       "max_length": 8,
+       "unique": true
+      }
+     ],
+     "z2": [
+      "IntegerField",
+      {
+       "db_index": true
+      }
+     ]
+    },
+    "meta": {
+     "unique_together": [
+      [
+       "z1",
+       "z2"
+      ]
+     ]
+    }
+   }
+  }
+ },
+ "C01|schema-equals-fresh|constraints-changed-twice-in-one-run": {
+  "bystanders": [
+   "Z"
+  ],
+  "family": "sequence",
+  "muts": [
+   [
+    "ChangeMeta",
+    "A",
+    "constraints",
+    [
+     {
+      "fields": [
+       "a1"
+      ],
+      "name": "uc_a",
+      "type": {
+       "__cls__": "UniqueConstraint"
+      }
+     }
+    ]
+   ],
+   [
+    "ChangeMeta",
+    "A",
+    "constraints",
+    []
+   ]
+  ],
+  "rows": {
+   "A": [
+    {
+     "a1": "first",
+     "a2": 1,
+     "a3": "x"
+    }
+   ],
+   "B": [
+    {
+     "b1": 10,
+     "ref": 1
+    }
+   ],
+   "Z": [
+    {
+     "z1": "z-one",
+     "z2": 1
+    }
+   ]
+  },
+  "spec": "@SEQ_SPEC"
+ },
+ "C01|schema-equals-fresh|db-index-change-after-rebuild-op-ignored": {
+  "bystanders": [
+   "Z"
+  ],
+  "family": "sequence",
+  "muts": [
+   [
+    "DeleteField",
+    "A",
+    "a1"
+   ],
+   [
+    "ChangeField",
+    "A",
+    "a2",
+    {
+     "db_index": true
+    }
+   ]
+  ],
+  "rows": {
+   "A": [
+    {
+     "a1": "first",
+     "a2": 1,
+     "a3": "x"
+    }
+   ],
+   "B": [
+    {
+     "b1": 10,
+     "ref": 1
+    }
+   ],
+   "Z": [
+    {
+     "z1": "z-one",
+     "z2": 1
+    }
+   ]
+  },
+  "spec": "@SEQ_SPEC"
+ },
+ "C01|schema-equals-fresh|delete-and-readd-same-column-in-one-run": {
+  "bystanders": [
+   "Z"
+  ],
+  "family": "sequence",
+  "muts": [
+   [
+    "DeleteField",
+    "A",
+    "a1"
+   ],
+   [
+    "AddField",
+    "A",
+    "a1",
+    "CharField",
+    {
+     "max_length": 8,
+     "null": true
+    }
+   ]
+  ],
+  "rows": {
+   "A": [
+    {
+     "a1": "first",
+     "a2": 1,
+     "a3": "x"
+    }
+   ],
+   "B": [
+    {
+     "b1": 10,
+     "ref": 1
+    }
+   ],
+   "Z": [
+    {
+     "z1": "z-one",
+     "z2": 1
+    }
+   ]
+  },
+  "spec": "@SEQ_SPEC"
+ },
+ "C01|schema-equals-fresh|index-and-column-name-changed-in-one-run": {
+  "bystanders": [
+   "Z"
+  ],
+  "family": "sequence",
+  "muts": [
+   [
+    "ChangeField",
+    "A",
+    "a1",
+    {
+     "db_index": true
+    }
+   ],
+   [
+    "ChangeField",
+    "A",
+    "a1",
+    {
+     "db_column": "c_a1"
+    }
+   ]
+  ],
+  "rows": {
+   "A": [
+    {
+     "a1": "first",
+     "a2": 1,
+     "a3": "x"
+    }
+   ],
+   "B": [
+    {
+     "b1": 10,
+     "ref": 1
+    }
+   ],
+   "Z": [
+    {
+     "z1": "z-one",
+     "z2": 1
+    }
+   ]
+  },
+  "spec": "@SEQ_SPEC"
+ },
+ "C01|schema-equals-fresh|index-on-renamed-column-not-dropped": {
+  "bystanders": [
+   "Z"
+  ],
+  "family": "hinted",
+  "muts": null,
+  "pair": [
+   "it-ix",
+   "x-plain-col"
+  ],
+  "rows": {
+   "P": [
+    {
+     "name": "plai#0"
+    }
+   ],
+   "T": [
+    {
+     "c": "0plain",
+     "i": 11,
+     "u": "plai#0",
+     "x": 11
+    }
+   ],
+   "Z": [
+    {
+     "z1": "plai#0",
+     "z2": 11
+    }
+   ]
+  },
+  "spec": {
+   "P": {
+    "fields": {
+     "name": [
+      "CharField",
+      {
+       "max_length": 20,
+       "unique": true
+      }
+     ]
+    },
+    "meta": {}
+   },
+   "T": {
+    "fields": {
+     "c": [
+      "CharField",
+      {
+       "max_length": 20
+      }
+     ],
+     "i": [
+      "IntegerField",
+      {
+       "null": true
+      }
+     ],
+     "u": [
+      "CharField",
+      {
+       "max_length": 10,
+       "unique": true
+      }
+     ],
+     "x": [
+      "IntegerField",
+      {
+       "db_index": true
+      }
+     ]
+    },
+    "meta": {
+     "index_together": [
+      [
+       "c",
+       "x"
+      ]
+     ],
+     "indexes": [
+      {
+       "fields": [
+        "i"
+       ],
+       "name": "ix_i"
+      }
+     ]
+    }
+   },
+   "Z": {
+    "fields": {
+     "z1": [
+      "CharField",
+      {
+       "max_length": 8,
+       "unique": true
+      }
+     ],
+     "z2": [
+      "IntegerField",
+      {
+       "db_index": true
+      }
+     ]
+    },
+    "meta": {
+     "unique_together": [
+      [
+       "z1",
+       "z2"
+      ]
+     ]
+    }
+   }
+  },
+  "target": {
+   "P": {
+    "fields": {
+     "name": [
+      "CharField",
+      {
+       "max_length": 20,
+       "unique": true
+      }
+     ]
+    },
+    "meta": {}
+   },
+   "T": {
+    "fields": {
+     "c": [
+      "CharField",
+      {
+       "max_length": 20
+      }
+     ],
+     "i": [
+      "IntegerField",
+      {
+       "null": true
+      }
+     ],
+     "u": [
+      "CharField",
+      {
+       "max_length": 10,
+       "unique": true
+      }
+     ],
+     "x": [
+      "IntegerField",
+      {
+       "db_column": "x_col"
+      }
+     ]
+    },
+    "meta": {}
+   },
+   "Z": {
+    "fields": {
+     "z1": [
+      "CharField",
+      {
+       "max_length": 8,
+       "unique": true
+      }
+     ],
+     "z2": [
+      "IntegerField",
+      {
+       "db_index": true
+      }
+     ]
+    },
+    "meta": {
+     "unique_together": [
+      [
+       "z1",
+       "z2"
+      ]
+     ]
+    }
+   }
+  }
+ },
+ "C01|schema-equals-fresh|positive-integer-check-not-created": {
+  "bystanders": [
+   "Z"
+  ],
+  "family": "add-plain",
+  "muts": [
+   [
+    "AddField",
+    "T",
+    "n",
+    "PositiveIntegerField",
+    {
+     "initial": 4
+    }
+   ]
+  ],
+  "rows": {
+   "P": [
+    {
+     "name": "plai#0"
+    }
+   ],
+   "T": [
+    {
+     "c": "0plain",
+     "i": 11,
+     "u": "plai#0",
+     "x": 11
+    }
+   ],
+   "Z": [
+    {
+     "z1": "plai#0",
+     "z2": 11
+    }
+   ]
+  },
+  "spec": "@C01_PLAIN"
+ },
+ "C01|schema-equals-fresh|rebuild-loses-table-level-objects": {
+  "batched": false,
+  "bystanders": [
+   "Z"
+  ],
+  "family": "sequence-unbatched",
+  "muts": [
+   [
+    "ChangeMeta",
+    "A",
+    "index_together",
+    [
+     [
+      "a1",
+      "a2"
+     ]
+    ]
+   ],
+   [
+    "DeleteField",
+    "A",
+    "a3"
+   ]
+  ],
+  "rows": {
+   "A": [
+    {
+     "a1": "first",
+     "a2": 1,
+     "a3": "x"
+    }
+   ],
+   "B": [
+    {
+     "b1": 10,
+     "ref": 1
+    }
+   ],
+   "Z": [
+    {
+     "z1": "z-one",
+     "z2": 1
+    }
+   ]
+  },
+  "spec": "@SEQ_SPEC"
+ },
+ "C01|schema-equals-fresh|rename-model-keeps-m2m-column-names": {
+  "batched": false,
+  "bystanders": [
+   "Z"
+  ],
+  "family": "sequence-unbatched",
+  "muts": [
+   [
+    "AddField",
+    "B",
+    "lnk",
+    "ManyToManyField",
+    {
+     "related_model": "tests.A"
+    }
+   ],
+   [
+    "RenameModel",
+    "A",
+    "C",
+    "tests_c"
+   ]
+  ],
+  "rows": {
+   "A": [
+    {
+     "a1": "first",
+     "a2": 1,
+     "a3": "x"
+    }
+   ],
+   "B": [
+    {
+     "b1": 10,
+     "ref": 1
+    }
+   ],
+   "Z": [
+    {
+     "z1": "z-one",
+     "z2": 1
+    }
+   ]
+  },
+  "spec": "@SEQ_SPEC"
+ },
+ "C01|schema-equals-fresh|second-index-on-same-columns-skipped": {
+  "bystanders": [
+   "Z"
+  ],
+  "family": "sequence",
+  "muts": [
+   [
+    "ChangeField",
+    "A",
+    "a1",
+    {
+     "db_index": true
+    }
+   ],
+   [
+    "ChangeMeta",
+    "A",
+    "indexes",
+    [
+     {
+      "fields": [
+       "a1"
+      ],
+      "name": "ix_a"
+     }
+    ]
+   ]
+  ],
+  "rows": {
+   "A": [
+    {
+     "a1": "first",
+     "a2": 1,
+     "a3": "x"
+    }
+   ],
+   "B": [
+    {
+     "b1": 10,
+     "ref": 1
+    }
+   ],
+   "Z": [
+    {
+     "z1": "z-one",
+     "z2": 1
+    }
+   ]
+  },
+  "spec": "@SEQ_SPEC"
+ },
+ "C01|schema-equals-fresh|type-change-across-relation-kinds": {
+  "bystanders": [
+   "Z"
+  ],
+  "family": "hinted",
+  "muts": null,
+  "pair": [
+   "plus-fk",
+   "plus-int"
+  ],
+  "rows": {
+   "P": [
+    {
+     "name": "plai#0"
+    }
+   ],
+   "T": [
+    {
+     "c": "0plain",
+     "i": 11,
+     "n": 1,
+     "u": "plai#0",
+     "x": 11
+    }
+   ],
+   "Z": [
+    {
+     "z1": "plai#0",
+     "z2": 11
+    }
+   ]
+  },
+  "spec": {
+   "P": {
+    "fields": {
+     "name": [
+      "CharField",
+      {
+       "max_length": 20,
+       "unique": true
+      }
+     ]
+    },
+    "meta": {}
+   },
+   "T": {
+    "fields": {
+     "c": [
+      "CharField",
+      {
+       "max_length": 20
+      }
+     ],
+     "i": [
+      "IntegerField",
+      {
+       "null": true
+      }
+     ],
+     "n": [
+      "ForeignKey",
+      {
+       "null": true,
+       "to": "P"
+      }
+     ],
+     "u": [
+      "CharField",
+      {
+       "max_length": 10,
+       "unique": true
+      }
+     ],
+     "x": [
+      "IntegerField",
+      {
+       "db_index": true
+      }
+     ]
+    },
+    "meta": {}
+   },
+   "Z": {
+    "fields": {
+     "z1": [
+      "CharField",
+      {
+       "max_length": 8,
+       "unique": true
+      }
+     ],
+     "z2": [
+      "IntegerField",
+      {
+       "db_index": true
+      }
+     ]
+    },
+    "meta": {
+     "unique_together": [
+      [
+       "z1",
+       "z2"
+      ]
+     ]
+    }
+   }
+  },
+  "target": {
+   "P": {
+    "fields": {
+     "name": [
+      "CharField",
+      {
+       "max_length": 20,
+       "unique": true
+      }
+     ]
+    },
+    "meta": {}
+   },
+   "T": {
+    "fields": {
+     "c": [
+      "CharField",
+      {
+       "max_length": 20
+      }
+     ],
+     "i": [
+      "IntegerField",
+      {
+       "null": true
+      }
+     ],
+     "n": [
+      "IntegerField",
+      {
+       "null": true
+      }
+     ],
+     "u": [
+      "CharField",
+      {
+       "max_length": 10,
+       "unique": true
+      }
+     ],
+     "x": [
+      "IntegerField",
+      {
+       "db_index": true
+      }
+     ]
+    },
+    "meta": {}
+   },
+   "Z": {
+    "fields": {
+     "z1": [
+      "CharField",
+      {
+       "max_length": 8,
+       "unique": true
+      }
+     ],
+     "z2": [
+      "IntegerField",
+      {
+       "db_index": true
+      }
+     ]
+    },
+    "meta": {
+     "unique_together": [
+      [
+       "z1",
+       "z2"
+      ]
+     ]
+    }
+   }
+  }
+ },
+ "C01|schema-equals-fresh|unique-together-member-deleted-in-same-run": {
+  "bystanders": [
+   "Z"
+  ],
+  "family": "sequence",
+  "muts": [
+   [
+    "ChangeMeta",
+    "A",
+    "unique_together",
+    [
+     [
+      "a1",
+      "a3"
+     ]
+    ]
+   ],
+   [
+    "DeleteField",
+    "A",
+    "a1"
+   ]
+  ],
+  "rows": {
+   "A": [
+    {
+     "a1": "first",
+     "a2": 1,
+     "a3": "x"
+    }
+   ],
+   "B": [
+    {
+     "b1": 10,
+     "ref": 1
+    }
+   ],
+   "Z": [
+    {
+     "z1": "z-one",
+     "z2": 1
+    }
+   ]
+  },
+  "spec": "@SEQ_SPEC"
+ },
+ "C01|sql-executes|check-constraint-taken-for-index": {
+  "bystanders": [
+   "Z"
+  ],
+  "family": "change-plain",
+  "muts": [
+   [
+    "ChangeField",
+    "T",
+    "n",
+    {
+     "db_index": false
+    }
+   ]
+  ],
+  "rows": {
+   "P": [
+    {
+     "name": "plai#0"
+    }
+   ],
+   "T": [
+    {
+     "c": "0plain",
+     "i": 11,
+     "n": 10,
+     "u": "plai#0",
+     "x": 11
+    }
+   ],
+   "Z": [
+    {
+     "z1": "plai#0",
+     "z2": 11
+    }
+   ]
+  },
+  "spec": {
+   "P": {
+    "fields": {
+     "name": [
+      "CharField",
+      {
+       "max_length": 20,
+       "unique": true
+      }
+     ]
+    },
+    "meta": {}
+   },
+   "T": {
+    "fields": {
+     "c": [
+      "CharField",
+      {
+       "max_length": 20
+      }
+     ],
+     "i": [
+      "IntegerField",
+      {
+       "null": true
+      }
+     ],
+     "n": [
+      "PositiveIntegerField",
+      {
+       "db_index": true
+      }
+     ],
+     "u": [
+      "CharField",
+      {
+       "max_length": 10,
+       "unique": true
+      }
+     ],
+     "x": [
+      "IntegerField",
+      {
+       "db_index": true
+      }
+     ]
+    },
+    "meta": {}
+   },
+   "Z": {
+    "fields": {
+     "z1": [
+      "CharField",
+      {
+       "max_length": 8,
+       "unique": true
+      }
+     ],
+     "z2": [
+      "IntegerField",
+      {
+       "db_index": true
+      }
+     ]
+    },
+    "meta": {
+     "unique_together": [
+      [
+       "z1",
+       "z2"
+      ]
+     ]
+    }
+   }
+  }
+ },
+ "C01|sql-executes|delete-and-readd-same-column-in-one-run": {
+  "bystanders": [
+   "Z"
+  ],
+  "family": "sequence",
+  "muts": [
+   [
+    "DeleteField",
+    "A",
+    "a1"
+   ],
+   [
+    "AddField",
+    "A",
+    "a1",
+    "IntegerField",
+    {
+     "initial": 7
+    }
+   ]
+  ],
+  "rows": {
+   "A": [
+    {
+     "a1": "first",
+     "a2": 1,
+     "a3": "x"
+    }
+   ],
+   "B": [
+    {
+     "b1": 10,
+     "ref": 1
+    }
+   ],
+   "Z": [
+    {
+     "z1": "z-one",
+     "z2": 1
+    }
+   ]
+  },
+  "spec": "@SEQ_SPEC"
+ },
+ "C01|sql-executes|drop-index-after-rebuild-dropped-it": {
+  "bystanders": [
+   "Z"
+  ],
+  "family": "hinted",
+  "muts": null,
+  "pair": [
+   "ut",
+   "c-text"
+  ],
+  "rows": {
+   "P": [
+    {
+     "name": "plai#0"
+    }
+   ],
+   "T": [
+    {
+     "c": "0plain",
+     "i": 11,
+     "u": "plai#0",
+     "x": 11
+    }
+   ],
+   "Z": [
+    {
+     "z1": "plai#0",
+     "z2": 11
+    }
+   ]
+  },
+  "spec": {
+   "P": {
+    "fields": {
+     "name": [
+      "CharField",
+      {
+       "max_length": 20,
+       "unique": true
+      }
+     ]
+    },
+    "meta": {}
+   },
+   "T": {
+    "fields": {
+     "c": [
+      "CharField",
+      {
+       "max_length": 20
+      }
+     ],
+     "i": [
+      "IntegerField",
+      {
+       "null": true
+      }
+     ],
+     "u": [
+      "CharField",
+      {
+       "max_length": 10,
+       "unique": true
+      }
+     ],
+     "x": [
+      "IntegerField",
+      {
+       "db_index": true
+      }
+     ]
+    },
+    "meta": {
+     "unique_together": [
+      [
+       "c",
+       "i"
+      ]
+     ]
+    }
+   },
+   "Z": {
+    "fields": {
+     "z1": [
+      "CharField",
+      {
+       "max_length": 8,
+       "unique": true
+      }
+     ],
+     "z2": [
+      "IntegerField",
+      {
+       "db_index": true
+      }
+     ]
+    },
+    "meta": {
+     "unique_together": [
+      [
+       "z1",
+       "z2"
+      ]
+     ]
+    }
+   }
+  },
+  "target": {
+   "P": {
+    "fields": {
+     "name": [
+      "CharField",
+      {
+       "max_length": 20,
+       "unique": true
+      }
+     ]
+    },
+    "meta": {}
+   },
+   "T": {
+    "fields": {
+     "c": [
+      "TextField",
+      {}
+     ],
+     "i": [
+      "IntegerField",
+      {
+       "null": true
+      }
+     ],
+     "u": [
+      "CharField",
+      {
+       "max_length": 10,
+       "unique": true
+      }
+     ],
+     "x": [
+      "IntegerField",
+      {
+       "db_index": true
+      }
+     ]
+    },
+    "meta": {}
+   },
+   "Z": {
+    "fields": {
+     "z1": [
+      "CharField",
+      {
+       "max_length": 8,
+       "unique": true
+      }
+     ],
+     "z2": [
+      "IntegerField",
+      {
+       "db_index": true
+      }
+     ]
+    },
+    "meta": {
+     "unique_together": [
+      [
+       "z1",
+       "z2"
+      ]
+     ]
+    }
+   }
+  }
+ },
+ "C01|sql-executes|index-and-column-name-changed-in-one-run": {
+  "bystanders": [
+   "Z"
+  ],
+  "family": "sequence",
+  "muts": [
+   [
+    "ChangeField",
+    "A",
+    "a1",
+    {
+     "db_column": "c_a1"
+    }
+   ],
+   [
+    "RenameField",
+    "A",
+    "a3",
+    "r",
+    {}
+   ],
+   [
+    "ChangeField",
+    "A",
+    "a1",
+    {
+     "db_index": true
+    }
+   ]
+  ],
+  "rows": {
+   "A": [
+    {
+     "a1": "first",
+     "a2": 1,
+     "a3": "x"
+    }
+   ],
+   "B": [
+    {
+     "b1": 10,
+     "ref": 1
+    }
+   ],
+   "Z": [
+    {
+     "z1": "z-one",
+     "z2": 1
+    }
+   ]
+  },
+  "spec": "@SEQ_SPEC"
+ },
+ "C01|sql-executes|m2m-table-rename-keeps-index-names": {
+  "batched": false,
+  "bystanders": [
+   "Z"
+  ],
+  "family": "sequence-unbatched",
+  "muts": [
+   [
+    "RenameField",
+    "B",
+    "b1",
+    "r",
+    {
+     "db_column": "col_r"
+    }
+   ],
+   [
+    "ChangeField",
+    "A",
+    "a3",
+    {
+     "initial": "n%",
+     "null": false
+    }
+   ],
+   [
+    "AddField",
+    "B",
+    "lnk",
+    "ManyToManyField",
+    {
+     "related_model": "tests.A"
+    }
+   ],
+   [
+    "AddField",
+    "A",
+    "lnk",
+    "ForeignKey",
+    {
+     "null": true,
+     "related_model": "tests.B"
+    }
+   ],
+   [
+    "RenameField",
+    "B",
+    "lnk",
+    "x",
+    {}
+   ],
+   [
+    "AddField",
+    "A",
+    "x",
+    "CharField",
+    {
+     "initial": "i'%",
+     "max_length": 8
+    }
+   ],
+   [
+    "AddField",
+    "B",
+    "lnk",
+    "ManyToManyField",
+    {
+     "related_model": "tests.A"
+    }
+   ],
+   [
+    "DeleteField",
+    "A",
+    "lnk"
+   ]
+  ],
+  "rows": {
+   "A": [
+    {
+     "a1": "first",
+     "a2": 1,
+     "a3": "x"
+    }
+   ],
+   "B": [
+    {
+     "b1": 10,
+     "ref": 1
+    }
+   ],
+   "Z": [
+    {
+     "z1": "z-one",
+     "z2": 1
+    }
+   ]
+  },
+  "spec": "@SEQ_SPEC"
+ },
+ "C01|sql-executes|type-change-across-relation-kinds": {
+  "bystanders": [
+   "Z"
+  ],
+  "family": "hinted",
+  "muts": null,
+  "pair": [
+   "plus-int",
+   "plus-m2m"
+  ],
+  "rows": {
+   "P": [
+    {
+     "name": "plai#0"
+    }
+   ],
+   "T": [
+    {
+     "c": "0plain",
+     "i": 11,
+     "n": 11,
+     "u": "plai#0",
+     "x": 11
+    }
+   ],
+   "Z": [
+    {
+     "z1": "plai#0",
+     "z2": 11
+    }
+   ]
+  },
+  "spec": {
+   "P": {
+    "fields": {
+     "name": [
+      "CharField",
+      {
+       "max_length": 20,
+       "unique": true
+      }
+     ]
+    },
+    "meta": {}
+   },
+   "T": {
+    "fields": {
+     "c": [
+      "CharField",
+      {
+       "max_length": 20
+      }
+     ],
+     "i": [
+      "IntegerField",
+      {
+       "null": true
+      }
+     ],
+     "n": [
+      "IntegerField",
+      {
+       "null": true
+      }
+     ],
+     "u": [
+      "CharField",
+      {
+       "max_length": 10,
+       "unique": true
+      }
+     ],
+     "x": [
+      "IntegerField",
+      {
+       "db_index": true
+      }
+     ]
+    },
+    "meta": {}
+   },
+   "Z": {
+    "fields": {
+     "z1": [
+      "CharField",
+      {
+       "max_length": 8,
+       "unique": true
+      }
+     ],
+     "z2": [
+      "IntegerField",
+      {
+       "db_index": true
+      }
+     ]
+    },
+    "meta": {
+     "unique_together": [
+      [
+       "z1",
+       "z2"
+      ]
+     ]
+    }
+   }
+  },
+  "target": {
+   "P": {
+    "fields": {
+     "name": [
+      "CharField",
+      {
+       "max_length": 20,
+       "unique": true
+      }
+     ]
+    },
+    "meta": {}
+   },
+   "T": {
+    "fields": {
+     "c": [
+      "CharField",
+      {
+       "max_length": 20
+      }
+     ],
+     "i": [
+      "IntegerField",
+      {
+       "null": true
+      }
+     ],
+     "n": [
+      "ManyToManyField",
+      {
+       "to": "P"
+      }
+     ],
+     "u": [
+      "CharField",
+      {
+       "max_length": 10,
+       "unique": true
+      }
+     ],
+     "x": [
+      "IntegerField",
+      {
+       "db_index": true
+      }
+     ]
+    },
+    "meta": {}
+   },
+   "Z": {
+    "fields": {
+     "z1": [
+      "CharField",
+      {
+       "max_length": 8,
+       "unique": true
+      }
+     ],
+     "z2": [
+      "IntegerField",
+      {
+       "db_index": true
+      }
+     ]
+    },
+    "meta": {
+     "unique_together": [
+      [
+       "z1",
+       "z2"
+      ]
+     ]
+    }
+   }
+  }
+ },
+ "C01|sql-executes|type-change-with-column-name-change": {
+  "bystanders": [
+   "Z"
+  ],
+  "family": "sequence",
+  "muts": [
+   [
+    "ChangeField",
+    "A",
+    "a3",
+    {
+     "db_column": "c_a3"
+    }
+   ],
+   [
+    "ChangeField",
+    "A",
+    "a3",
+    {
+     "field_type": "TextField",
+     "null": true
+    }
+   ]
+  ],
+  "rows": {
+   "A": [
+    {
+     "a1": "first",
+     "a2": 1,
+     "a3": "x"
+    }
+   ],
+   "B": [
+    {
+     "b1": 10,
+     "ref": 1
+    }
+   ],
+   "Z": [
+    {
+     "z1": "z-one",
+     "z2": 1
+    }
+   ]
+  },
+  "spec": "@SEQ_SPEC"
+ },
+ "C01|sql-executes|unique-together-member-deleted-in-same-run": {
+  "bystanders": [
+   "Z"
+  ],
+  "family": "sequence",
+  "muts": [
+   [
+    "RenameField",
+    "A",
+    "a2",
+    "r",
+    {
+     "db_column": "col_r"
+    }
+   ],
+   [
+    "RenameField",
+    "B",
+    "b1",
+    "r",
+    {
+     "db_column": "col_r"
+    }
+   ],
+   [
+    "ChangeMeta",
+    "A",
+    "unique_together",
+    [
+     [
+      "a1",
+      "a3"
+     ]
+    ]
+   ],
+   [
+    "DeleteField",
+    "A",
+    "a3"
+   ],
+   [
+    "ChangeField",
+    "A",
+    "a1",
+    {
+     "null": true
+    }
+   ],
+   [
+    "AddField",
+    "A",
+    "y",
+    "CharField",
+    {
+     "initial": "i'%",
+     "max_length": 8
+    }
+   ]
+  ],
+  "rows": {
+   "A": [
+    {
+     "a1": "first",
+     "a2": 1,
+     "a3": "x"
+    }
+   ],
+   "B": [
+    {
+     "b1": 10,
+     "ref": 1
+    }
+   ],
+   "Z": [
+    {
+     "z1": "z-one",
+     "z2": 1
+    }
+   ]
+  },
+  "spec": "@SEQ_SPEC"
+ },
+ "C02|added-column-initial|delete-and-readd-same-column-in-one-run": {
+  "family": "sequence",
+  "muts": [
+   [
+    "RenameField",
+    "A",
+    "a2",
+    "r",
+    {}
+   ],
+   [
+    "AddField",
+    "B",
+    "y",
+    "CharField",
+    {
+     "max_length": 8,
+     "null": true
+    }
+   ],
+   [
+    "RenameField",
+    "A",
+    "r",
+    "x",
+    {}
+   ],
+   [
+    "DeleteField",
+    "A",
+    "a1"
+   ],
+   [
+    "AddField",
+    "A",
+    "a1",
+    "CharField",
+    {
+     "max_length": 8,
+     "null": true
+    }
+   ],
+   [
+    "ChangeField",
+    "A",
+    "a3",
+    {
+     "field_type": "TextField",
+     "null": true
+    }
+   ]
+  ],
+  "rows": "@SEQ_ROWS",
+  "spec": "@SEQ_SPEC"
+ },
+ "C02|added-column-initial|initial-values-bound-in-mutation-order": {
+  "family": "init",
+  "muts": [
+   [
+    "AddField",
+    "T",
+    "n2",
+    "IntegerField",
+    {
+     "initial": -999
+    }
+   ],
+   [
+    "ChangeField",
+    "T",
+    "f2",
+    {
+     "initial": 222,
+     "null": false
+    }
+   ]
+  ],
+  "rows": {
+   "T": [
+    {
+     "f1": "one",
+     "f2": 1,
+     "f3": null,
+     "keep": "keep-0"
+    }
+   ],
+   "Z": [
+    {
+     "z1": "zz",
+     "z2": 5
+    }
+   ]
+  },
+  "spec": "@INIT_SPEC"
+ },
+ "C02|column-present|delete-and-readd-same-column-in-one-run": {
+  "family": "sequence",
+  "muts": [
+   [
+    "DeleteField",
+    "A",
+    "a1"
+   ],
+   [
+    "AddField",
+    "A",
+    "a1",
+    "CharField",
+    {
+     "max_length": 8,
+     "null": true
+    }
+   ]
+  ],
+  "rows": "@SEQ_ROWS",
+  "spec": "@SEQ_SPEC"
+ },
+ "C02|null-replaced-by-initial|initial-values-bound-in-mutation-order": {
+  "family": "init",
+  "muts": [
+   [
+    "AddField",
+    "T",
+    "n2",
+    "IntegerField",
+    {
+     "initial": -999
+    }
+   ],
+   [
+    "ChangeField",
+    "T",
+    "f3",
+    {
+     "initial": "F3 50%",
+     "null": false
+    }
+   ]
+  ],
+  "rows": {
+   "T": [
+    {
+     "f1": "one",
+     "f2": 1,
+     "f3": null,
+     "keep": "keep-0"
+    }
+   ],
+   "Z": [
+    {
+     "z1": "zz",
+     "z2": 5
+    }
+   ]
+  },
+  "spec": "@INIT_SPEC"
+ },
+ "C02|null-replaced-by-initial|optimizer-merges-away-null-roundtrip": {
+  "family": "sequence",
+  "muts": [
+   [
+    "ChangeField",
+    "A",
+    "a2",
+    {
+     "initial": 5,
+     "null": false
+    }
+   ],
+   [
+    "ChangeField",
+    "A",
+    "a2",
+    {
+     "null": true
+    }
+   ]
+  ],
+  "rows": "@SEQ_ROWS",
+  "spec": "@SEQ_SPEC"
+ },
+ "C03|batched-accepted|delete-and-readd-same-column-in-one-run": {
+  "evolver_parts": [
+   1,
+   2
+  ],
+  "muts": [
+   [
+    "DeleteField",
+    "B",
+    "b1"
+   ],
+   [
+    "AddField",
+    "B",
+    "b1",
+    "IntegerField",
+    {
+     "initial": 7
+    }
+   ]
+  ],
+  "rows": "@SEQ_ROWS",
+  "spec": "@SEQ_SPEC"
+ },
+ "C03|batched-accepted|drop-index-after-rebuild-dropped-it": {
+  "evolver": true,
+  "evolver_parts": [
+   2
+  ],
+  "muts": [
+   [
+    "ChangeMeta",
+    "A",
+    "unique_together",
+    [
+     [
+      "a1",
+      "a3"
+     ]
+    ]
+   ],
+   [
+    "SQLMutation",
+    "barrier",
+    [
+     "SELECT 1;"
+    ],
+    "sim"
+   ],
+   [
+    "ChangeMeta",
+    "A",
+    "unique_together",
+    []
+   ],
+   [
+    "DeleteField",
+    "A",
+    "a3"
+   ]
+  ],
+  "rows": "@SEQ_ROWS",
+  "spec": "@SEQ_SPEC"
+ },
+ "C03|batched-accepted|index-and-column-name-changed-in-one-run": {
+  "evolver_parts": [
+   1,
+   2
+  ],
+  "muts": [
+   [
+    "ChangeField",
+    "A",
+    "a1",
+    {
+     "db_index": true
+    }
+   ],
+   [
+    "ChangeField",
+    "A",
+    "a1",
+    {
+     "db_column": "c_a1"
+    }
+   ],
+   [
+    "ChangeField",
+    "B",
+    "b1",
+    {
+     "db_column": "c_b1"
+    }
+   ],
+   [
+    "AddField",
+    "B",
+    "y",
+    "CharField",
+    {
+     "max_length": 8,
+     "null": true
+    }
+   ]
+  ],
+  "rows": "@SEQ_ROWS",
+  "spec": "@SEQ_SPEC"
+ },
+ "C03|batched-accepted|optimizer-confuses-reused-field-names": {
+  "evolver_parts": [
+   1,
+   2
+  ],
+  "muts": [
+   [
+    "RenameField",
+    "A",
+    "a2",
+    "r",
+    {}
+   ],
+   [
+    "DeleteField",
+    "A",
+    "a1"
+   ],
+   [
+    "RenameField",
+    "A",
+    "r",
+    "a1",
+    {}
+   ]
+  ],
+  "rows": "@SEQ_ROWS",
+  "spec": "@SEQ_SPEC"
+ },
+ "C03|batched-accepted|optimizer-field-ids-ignore-model-renames": {
+  "evolver_parts": [
+   1,
+   2
+  ],
+  "muts": [
+   [
+    "RenameModel",
+    "A",
+    "C",
+    "tests_c"
+   ],
+   [
+    "DeleteField",
+    "C",
+    "a1"
+   ],
+   [
+    "RenameModel",
+    "C",
+    "A",
+    "tests_a"
+   ]
+  ],
+  "rows": "@SEQ_ROWS",
+  "spec": "@SEQ_SPEC"
+ },
+ "C03|batched-accepted|optimizer-noop-field-still-referenced": {
+  "evolver_parts": [
+   1,
+   2
+  ],
+  "muts": [
+   [
+    "AddField",
+    "A",
+    "x",
+    "IntegerField",
+    {
+     "initial": 7
+    }
+   ],
+   [
+    "ChangeMeta",
+    "A",
+    "unique_together",
+    [
+     [
+      "a1",
+      "x"
+     ]
+    ]
+   ],
+   [
+    "DeleteField",
+    "A",
+    "x"
+   ]
+  ],
+  "rows": "@SEQ_ROWS",
+  "spec": "@SEQ_SPEC"
+ },
+ "C03|batched-accepted|optimizer-regroups-by-model-name": {
+  "evolver_parts": [
+   1,
+   2
+  ],
+  "muts": [
+   [
+    "DeleteModel",
+    "B"
+   ],
+   [
+    "DeleteModel",
+    "A"
+   ]
+  ],
+  "rows": "@SEQ_ROWS",
+  "spec": "@SEQ_SPEC"
+ },
+ "C03|batched-accepted|optimizer-retargets-added-relation-before-rename": {
+  "evolver_parts": [
+   1,
+   2
+  ],
+  "muts": [
+   [
+    "AddField",
+    "A",
+    "lnk",
+    "ManyToManyField",
+    {
+     "related_model": "tests.B"
+    }
+   ],
+   [
+    "RenameModel",
+    "B",
+    "Aa",
+    "tests_b"
+   ]
+  ],
+  "rows": "@SEQ_ROWS",
+  "spec": "@SEQ_SPEC"
+ },
+ "C03|batched-accepted|rename-model-not-tracked-in-database-state": {
+  "evolver_parts": [
+   1,
+   2
+  ],
+  "muts": [
+   [
+    "RenameModel",
+    "A",
+    "C",
+    "tests_c"
+   ],
+   [
+    "ChangeField",
+    "C",
+    "a2",
+    {
+     "unique": true
+    }
+   ]
+  ],
+  "rows": "@SEQ_ROWS",
+  "spec": "@SEQ_SPEC"
+ },
+ "C03|batched-accepted|type-change-with-column-name-change": {
+  "evolver_parts": [
+   1,
+   2
+  ],
+  "muts": [
+   [
+    "ChangeField",
+    "A",
+    "a3",
+    {
+     "field_type": "TextField",
+     "null": true
+    }
+   ],
+   [
+    "ChangeField",
+    "A",
+    "a3",
+    {
+     "db_column": "c_a3"
+    }
+   ]
+  ],
+  "rows": "@SEQ_ROWS",
+  "spec": "@SEQ_SPEC"
+ },
+ "C03|batched-accepted|unique-together-member-deleted-in-same-run": {
+  "evolver_parts": [
+   1,
+   2
+  ],
+  "muts": [
+   [
+    "ChangeMeta",
+    "A",
+    "unique_together",
+    [
+     [
+      "a1",
+      "a3"
+     ]
+    ]
+   ],
+   [
+    "DeleteField",
+    "A",
+    "a1"
+   ],
+   [
+    "DeleteField",
+    "A",
+    "a3"
+   ]
+  ],
+  "rows": "@SEQ_ROWS",
+  "spec": "@SEQ_SPEC"
+ },
+ "C03|batched-same-rows|delete-and-readd-same-column-in-one-run": {
+  "evolver_parts": [
+   1,
+   2
+  ],
+  "muts": [
+   [
+    "DeleteField",
+    "A",
+    "a3"
+   ],
+   [
+    "AddField",
+    "A",
+    "a3",
+    "CharField",
+    {
+     "max_length": 8,
+     "null": true
+    }
+   ]
+  ],
+  "rows": "@SEQ_ROWS",
+  "spec": "@SEQ_SPEC"
+ },
+ "C03|batched-same-rows|initial-values-bound-in-mutation-order": {
+  "evolver_parts": [
+   1,
+   2
+  ],
+  "muts": [
+   [
+    "AddField",
+    "A",
+    "x",
+    "IntegerField",
+    {
+     "initial": 7
+    }
+   ],
+   [
+    "ChangeField",
+    "A",
+    "a2",
+    {
+     "initial": 5,
+     "null": false
+    }
+   ]
+  ],
+  "rows": "@SEQ_ROWS",
+  "spec": "@SEQ_SPEC"
+ },
+ "C03|batched-same-rows|optimizer-collapses-column-name-chain": {
+  "evolver": false,
+  "evolver_parts": [
+   2
+  ],
+  "muts": [
+   [
+    "RenameField",
+    "A",
+    "a2",
+    "r",
+    {}
+   ],
+   [
+    "ChangeField",
+    "A",
+    "r",
+    {
+     "initial": 5,
+     "null": false
+    }
+   ],
+   [
+    "RenameField",
+    "A",
+    "r",
+    "x",
+    {}
+   ],
+   [
+    "ChangeField",
+    "A",
+    "a3",
+    {
+     "initial": "n%",
+     "null": false
+    }
+   ]
+  ],
+  "rows": "@SEQ_ROWS",
+  "spec": "@SEQ_SPEC"
+ },
+ "C03|batched-same-rows|optimizer-confuses-reused-field-names": {
+  "evolver_parts": [
+   1,
+   2
+  ],
+  "muts": [
+   [
+    "RenameField",
+    "B",
+    "ref",
+    "r",
+    {}
+   ],
+   [
+    "DeleteField",
+    "B",
+    "b1"
+   ],
+   [
+    "RenameField",
+    "B",
+    "r",
+    "b1",
+    {}
+   ]
+  ],
+  "rows": "@SEQ_ROWS",
+  "spec": "@SEQ_SPEC"
+ },
+ "C03|batched-same-rows|optimizer-drops-rename-back-to-existing-name": {
+  "evolver_parts": [
+   1,
+   2
+  ],
+  "muts": [
+   [
+    "RenameModel",
+    "A",
+    "C",
+    "tests_c"
+   ],
+   [
+    "SQLMutation",
+    "barrier",
+    [
+     "SELECT 1;"
+    ],
+    "sim"
+   ],
+   [
+    "RenameModel",
+    "C",
+    "A",
+    "tests_a"
+   ]
+  ],
+  "rows": "@SEQ_ROWS",
+  "spec": "@SEQ_SPEC"
+ },
+ "C03|batched-same-rows|optimizer-merges-away-null-roundtrip": {
+  "evolver_parts": [
+   1,
+   2
+  ],
+  "muts": [
+   [
+    "RenameModel",
+    "A",
+    "C",
+    "tests_c"
+   ],
+   [
+    "ChangeField",
+    "C",
+    "a2",
+    {
+     "initial": 5,
+     "null": false
+    }
+   ],
+   [
+    "AddField",
+    "C",
+    "x",
+    "CharField",
+    {
+     "max_length": 8,
+     "null": true
+    }
+   ],
+   [
+    "ChangeField",
+    "C",
+    "a2",
+    {
+     "null": true
+    }
+   ],
+   [
+    "AddField",
+    "B",
+    "y",
+    "IntegerField",
+    {
+     "initial": 7
+    }
+   ],
+   [
+    "DeleteField",
+    "B",
+    "ref"
+   ]
+  ],
+  "rows": "@SEQ_ROWS",
+  "spec": "@SEQ_SPEC"
+ },
+ "C03|batched-same-schema|constraints-changed-twice-in-one-run": {
+  "evolver_parts": [
+   1,
+   2
+  ],
+  "muts": [
+   [
+    "ChangeMeta",
+    "B",
+    "constraints",
+    [
+     {
+      "fields": [
+       "b1"
+      ],
+      "name": "uc_b",
+      "type": {
+       "__cls__": "UniqueConstraint"
+      }
+     }
+    ]
+   ],
+   [
+    "ChangeMeta",
+    "B",
+    "constraints",
+    []
+   ],
+   [
+    "DeleteField",
+    "A",
+    "a2"
+   ],
+   [
+    "ChangeField",
+    "A",
+    "a1",
+    {
+     "db_index": true
+    }
+   ],
+   [
+    "ChangeField",
+    "A",
+    "a1",
+    {
+     "db_index": false
+    }
+   ]
+  ],
+  "rows": "@SEQ_ROWS",
+  "spec": "@SEQ_SPEC"
+ },
+ "C03|batched-same-schema|db-index-change-after-rebuild-op-ignored": {
+  "evolver_parts": [
+   1,
+   2
+  ],
+  "muts": [
+   [
+    "DeleteField",
+    "A",
+    "a2"
+   ],
+   [
+    "ChangeField",
+    "A",
+    "a1",
+    {
+     "db_index": true
+    }
+   ]
+  ],
+  "rows": "@SEQ_ROWS",
+  "spec": "@SEQ_SPEC"
+ },
+ "C03|batched-same-schema|delete-and-readd-same-column-in-one-run": {
+  "evolver_parts": [
+   1,
+   2
+  ],
+  "muts": [
+   [
+    "DeleteField",
+    "A",
+    "a3"
+   ],
+   [
+    "AddField",
+    "A",
+    "a3",
+    "CharField",
+    {
+     "max_length": 8,
+     "null": true
+    }
+   ]
+  ],
+  "rows": "@SEQ_ROWS",
+  "spec": "@SEQ_SPEC"
+ },
+ "C03|batched-same-schema|index-and-column-name-changed-in-one-run": {
+  "evolver_parts": [
+   1,
+   2
+  ],
+  "muts": [
+   [
+    "ChangeField",
+    "A",
+    "a1",
+    {
+     "db_index": true
+    }
+   ],
+   [
+    "ChangeField",
+    "A",
+    "a1",
+    {
+     "db_column": "c_a1"
+    }
+   ]
+  ],
+  "rows": "@SEQ_ROWS",
+  "spec": "@SEQ_SPEC"
+ },
+ "C03|batched-same-schema|index-on-renamed-column-not-dropped": {
+  "evolver_parts": [
+   1,
+   2
+  ],
+  "muts": [
+   [
+    "RenameField",
+    "A",
+    "a3",
+    "r",
+    {}
+   ],
+   [
+    "ChangeMeta",
+    "A",
+    "unique_together",
+    [
+     [
+      "a1",
+      "r"
+     ]
+    ]
+   ],
+   [
+    "ChangeField",
+    "A",
+    "r",
+    {
+     "max_length": 15
+    }
+   ]
+  ],
+  "rows": "@SEQ_ROWS",
+  "spec": "@SEQ_SPEC"
+ },
+ "C03|batched-same-schema|optimizer-collapses-column-name-chain": {
+  "evolver": false,
+  "evolver_parts": [
+   2
+  ],
+  "muts": [
+   [
+    "RenameField",
+    "A",
+    "a2",
+    "r",
+    {}
+   ],
+   [
+    "RenameField",
+    "A",
+    "r",
+    "x",
+    {}
+   ],
+   [
+    "ChangeMeta",
+    "A",
+    "unique_together",
+    [
+     [
+      "a1",
+      "a3"
+     ]
+    ]
+   ],
+   [
+    "DeleteField",
+    "A",
+    "x"
+   ]
+  ],
+  "rows": "@SEQ_ROWS",
+  "spec": "@SEQ_SPEC"
+ },
+ "C03|batched-same-schema|optimizer-confuses-reused-field-names": {
+  "evolver_parts": [
+   1,
+   2
+  ],
+  "muts": [
+   [
+    "RenameField",
+    "B",
+    "ref",
+    "r",
+    {}
+   ],
+   [
+    "DeleteField",
+    "B",
+    "b1"
+   ],
+   [
+    "RenameField",
+    "B",
+    "r",
+    "b1",
+    {}
+   ]
+  ],
+  "rows": "@SEQ_ROWS",
+  "spec": "@SEQ_SPEC"
+ },
+ "C03|batched-same-schema|optimizer-drops-rename-back-to-existing-name": {
+  "evolver_parts": [
+   1,
+   2
+  ],
+  "muts": [
+   [
+    "RenameModel",
+    "A",
+    "C",
+    "tests_c"
+   ],
+   [
+    "SQLMutation",
+    "barrier",
+    [
+     "SELECT 1;"
+    ],
+    "sim"
+   ],
+   [
+    "RenameModel",
+    "C",
+    "A",
+    "tests_a"
+   ]
+  ],
+  "rows": "@SEQ_ROWS",
+  "spec": "@SEQ_SPEC"
+ },
+ "C03|batched-same-schema|optimizer-merges-changefield-across-type-change": {
+  "evolver_parts": [
+   1,
+   2
+  ],
+  "muts": [
+   [
+    "ChangeField",
+    "A",
+    "a2",
+    {
+     "unique": true
+    }
+   ],
+   [
+    "ChangeField",
+    "A",
+    "a2",
+    {
+     "field_type": "CharField",
+     "max_length": 12,
+     "null": true
+    }
+   ]
+  ],
+  "rows": "@SEQ_ROWS",
+  "spec": "@SEQ_SPEC"
+ },
+ "C03|batched-same-schema|rebuild-loses-table-level-objects": {
+  "evolver_parts": [
+   1,
+   2
+  ],
+  "muts": [
+   [
+    "ChangeMeta",
+    "A",
+    "index_together",
+    [
+     [
+      "a1",
+      "a2"
+     ]
+    ]
+   ],
+   [
+    "DeleteField",
+    "A",
+    "a3"
+   ]
+  ],
+  "rows": "@SEQ_ROWS",
+  "spec": "@SEQ_SPEC"
+ },
+ "C03|batched-same-schema|rename-model-keeps-m2m-column-names": {
+  "evolver_parts": [
+   1,
+   2
+  ],
+  "muts": [
+   [
+    "AddField",
+    "B",
+    "lnk",
+    "ManyToManyField",
+    {
+     "related_model": "tests.A"
+    }
+   ],
+   [
+    "RenameModel",
+    "A",
+    "C",
+    "tests_c"
+   ]
+  ],
+  "rows": "@SEQ_ROWS",
+  "spec": "@SEQ_SPEC"
+ },
+ "C03|batched-same-schema|rename-model-not-tracked-in-database-state": {
+  "evolver_parts": [
+   1,
+   2
+  ],
+  "muts": [
+   [
+    "ChangeMeta",
+    "A",
+    "unique_together",
+    [
+     [
+      "a1",
+      "a3"
+     ]
+    ]
+   ],
+   [
+    "RenameModel",
+    "A",
+    "C",
+    "tests_c"
+   ],
+   [
+    "ChangeMeta",
+    "C",
+    "unique_together",
+    []
+   ]
+  ],
+  "rows": "@SEQ_ROWS",
+  "spec": "@SEQ_SPEC"
+ },
+ "C03|batched-same-schema|unique-together-member-deleted-in-same-run": {
+  "evolver_parts": [
+   1,
+   2
+  ],
+  "muts": [
+   [
+    "ChangeMeta",
+    "A",
+    "unique_together",
+    [
+     [
+      "a1",
+      "a3"
+     ]
+    ]
+   ],
+   [
+    "DeleteField",
+    "A",
+    "a1"
+   ]
+  ],
+  "rows": "@SEQ_ROWS",
+  "spec": "@SEQ_SPEC"
+ },
+ "C03|batched-same-signature|optimizer-collapses-column-name-chain": {
+  "evolver_parts": [
+   1,
+   2
+  ],
+  "muts": [
+   [
+    "AddField",
+    "B",
+    "lnk",
+    "ManyToManyField",
+    {
+     "related_model": "tests.A"
+    }
+   ],
+   [
+    "RenameField",
+    "A",
+    "a1",
+    "r",
+    {
+     "db_column": "col_r"
+    }
+   ],
+   [
+    "RenameField",
+    "A",
+    "r",
+    "x",
+    {}
+   ],
+   [
+    "ChangeField",
+    "B",
+    "b1",
+    {
+     "null": true
+    }
+   ]
+  ],
+  "rows": "@SEQ_ROWS",
+  "spec": "@SEQ_SPEC"
+ },
+ "C03|batched-same-signature|optimizer-confuses-reused-field-names": {
+  "evolver_parts": [
+   1,
+   2
+  ],
+  "muts": [
+   [
+    "RenameField",
+    "B",
+    "ref",
+    "r",
+    {}
+   ],
+   [
+    "DeleteField",
+    "B",
+    "b1"
+   ],
+   [
+    "RenameField",
+    "B",
+    "r",
+    "b1",
+    {}
+   ]
+  ],
+  "rows": "@SEQ_ROWS",
+  "spec": "@SEQ_SPEC"
+ },
+ "C03|batched-same-signature|optimizer-drops-rename-back-to-existing-name": {
+  "evolver_parts": [
+   1,
+   2
+  ],
+  "muts": [
+   [
+    "RenameModel",
+    "A",
+    "C",
+    "tests_c"
+   ],
+   [
+    "SQLMutation",
+    "barrier",
+    [
+     "SELECT 1;"
+    ],
+    "sim"
+   ],
+   [
+    "RenameModel",
+    "C",
+    "A",
+    "tests_a"
+   ]
+  ],
+  "rows": "@SEQ_ROWS",
+  "spec": "@SEQ_SPEC"
+ },
+ "C03|batched-same-signature|optimizer-merges-changefield-across-type-change": {
+  "evolver_parts": [
+   1,
+   2
+  ],
+  "muts": [
+   [
+    "ChangeField",
+    "A",
+    "a2",
+    {
+     "unique": true
+    }
+   ],
+   [
+    "ChangeField",
+    "A",
+    "a2",
+    {
+     "field_type": "CharField",
+     "max_length": 12,
+     "null": true
+    }
+   ]
+  ],
+  "rows": "@SEQ_ROWS",
+  "spec": "@SEQ_SPEC"
+ },
+ "C03|definitions-unaltered|optimizer-rewrites-mutations-in-place": {
+  "evolver_parts": [
+   1,
+   2
+  ],
+  "muts": [
+   [
+    "RenameModel",
+    "B",
+    "Aa",
+    "tests_aa"
+   ],
+   [
+    "DeleteModel",
+    "Aa"
+   ]
+  ],
+  "rows": "@SEQ_ROWS",
+  "spec": "@SEQ_SPEC"
+ },
+ "C03|evolver-accepted|delete-and-readd-same-column-in-one-run": {
+  "evolver_parts": [
+   1,
+   2
+  ],
+  "muts": [
+   [
+    "DeleteField",
+    "B",
+    "b1"
+   ],
+   [
+    "AddField",
+    "B",
+    "b1",
+    "IntegerField",
+    {
+     "initial": 7
+    }
+   ]
+  ],
+  "rows": "@SEQ_ROWS",
+  "spec": "@SEQ_SPEC"
+ },
+ "C03|evolver-accepted|drop-index-after-rebuild-dropped-it": {
+  "evolver": true,
+  "evolver_parts": [
+   2
+  ],
+  "muts": [
+   [
+    "ChangeMeta",
+    "A",
+    "unique_together",
+    [
+     [
+      "a1",
+      "a3"
+     ]
+    ]
+   ],
+   [
+    "SQLMutation",
+    "barrier",
+    [
+     "SELECT 1;"
+    ],
+    "sim"
+   ],
+   [
+    "ChangeMeta",
+    "A",
+    "unique_together",
+    []
+   ],
+   [
+    "DeleteField",
+    "A",
+    "a3"
+   ]
+  ],
+  "rows": "@SEQ_ROWS",
+  "spec": "@SEQ_SPEC"
+ },
+ "C03|evolver-accepted|index-and-column-name-changed-in-one-run": {
+  "evolver_parts": [
+   1,
+   2
+  ],
+  "muts": [
+   [
+    "ChangeField",
+    "A",
+    "a1",
+    {
+     "db_index": true
+    }
+   ],
+   [
+    "ChangeField",
+    "A",
+    "a1",
+    {
+     "db_column": "c_a1"
+    }
+   ],
+   [
+    "ChangeField",
+    "B",
+    "b1",
+    {
+     "db_column": "c_b1"
+    }
+   ],
+   [
+    "AddField",
+    "B",
+    "y",
+    "CharField",
+    {
+     "max_length": 8,
+     "null": true
+    }
+   ]
+  ],
+  "rows": "@SEQ_ROWS",
+  "spec": "@SEQ_SPEC"
+ },
+ "C03|evolver-accepted|optimizer-confuses-reused-field-names": {
+  "evolver_parts": [
+   1,
+   2
+  ],
+  "muts": [
+   [
+    "RenameField",
+    "A",
+    "a2",
+    "r",
+    {}
+   ],
+   [
+    "DeleteField",
+    "A",
+    "a1"
+   ],
+   [
+    "RenameField",
+    "A",
+    "r",
+    "a1",
+    {}
+   ]
+  ],
+  "rows": "@SEQ_ROWS",
+  "spec": "@SEQ_SPEC"
+ },
+ "C03|evolver-accepted|optimizer-field-ids-ignore-model-renames": {
+  "evolver_parts": [
+   1,
+   2
+  ],
+  "muts": [
+   [
+    "RenameModel",
+    "A",
+    "C",
+    "tests_c"
+   ],
+   [
+    "DeleteField",
+    "C",
+    "a1"
+   ],
+   [
+    "RenameModel",
+    "C",
+    "A",
+    "tests_a"
+   ]
+  ],
+  "rows": "@SEQ_ROWS",
+  "spec": "@SEQ_SPEC"
+ },
+ "C03|evolver-accepted|optimizer-noop-field-still-referenced": {
+  "evolver_parts": [
+   1,
+   2
+  ],
+  "muts": [
+   [
+    "AddField",
+    "A",
+    "x",
+    "IntegerField",
+    {
+     "initial": 7
+    }
+   ],
+   [
+    "ChangeMeta",
+    "A",
+    "unique_together",
+    [
+     [
+      "a1",
+      "x"
+     ]
+    ]
+   ],
+   [
+    "DeleteField",
+    "A",
+    "x"
+   ]
+  ],
+  "rows": "@SEQ_ROWS",
+  "spec": "@SEQ_SPEC"
+ },
+ "C03|evolver-accepted|optimizer-regroups-by-model-name": {
+  "evolver_parts": [
+   1,
+   2
+  ],
+  "muts": [
+   [
+    "DeleteModel",
+    "B"
+   ],
+   [
+    "DeleteModel",
+    "A"
+   ]
+  ],
+  "rows": "@SEQ_ROWS",
+  "spec": "@SEQ_SPEC"
+ },
+ "C03|evolver-accepted|optimizer-retargets-added-relation-before-rename": {
+  "evolver_parts": [
+   1,
+   2
+  ],
+  "muts": [
+   [
+    "AddField",
+    "A",
+    "lnk",
+    "ManyToManyField",
+    {
+     "related_model": "tests.B"
+    }
+   ],
+   [
+    "RenameModel",
+    "B",
+    "Aa",
+    "tests_b"
+   ]
+  ],
+  "rows": "@SEQ_ROWS",
+  "spec": "@SEQ_SPEC"
+ },
+ "C03|evolver-accepted|optimizer-rewrites-mutations-in-place": {
+  "evolver_parts": [
+   1,
+   2
+  ],
+  "muts": [
+   [
+    "RenameModel",
+    "B",
+    "Aa",
+    "tests_aa"
+   ],
+   [
+    "DeleteModel",
+    "Aa"
+   ]
+  ],
+  "rows": "@SEQ_ROWS",
+  "spec": "@SEQ_SPEC"
+ },
+ "C03|evolver-accepted|rename-model-not-tracked-in-database-state": {
+  "evolver_parts": [
+   1,
+   2
+  ],
+  "muts": [
+   [
+    "RenameModel",
+    "A",
+    "C",
+    "tests_c"
+   ],
+   [
+    "ChangeField",
+    "C",
+    "a2",
+    {
+     "unique": true
+    }
+   ]
+  ],
+  "rows": "@SEQ_ROWS",
+  "spec": "@SEQ_SPEC"
+ },
+ "C03|evolver-accepted|type-change-with-column-name-change": {
+  "evolver_parts": [
+   1,
+   2
+  ],
+  "muts": [
+   [
+    "ChangeField",
+    "A",
+    "a3",
+    {
+     "field_type": "TextField",
+     "null": true
+    }
+   ],
+   [
+    "ChangeField",
+    "A",
+    "a3",
+    {
+     "db_column": "c_a3"
+    }
+   ]
+  ],
+  "rows": "@SEQ_ROWS",
+  "spec": "@SEQ_SPEC"
+ },
+ "C03|evolver-accepted|unique-together-member-deleted-in-same-run": {
+  "evolver_parts": [
+   1,
+   2
+  ],
+  "muts": [
+   [
+    "ChangeMeta",
+    "A",
+    "unique_together",
+    [
+     [
+      "a1",
+      "a3"
+     ]
+    ]
+   ],
+   [
+    "DeleteField",
+    "A",
+    "a1"
+   ],
+   [
+    "DeleteField",
+    "A",
+    "a3"
+   ]
+  ],
+  "rows": "@SEQ_ROWS",
+  "spec": "@SEQ_SPEC"
+ },
+ "C03|evolver-same-rows|delete-and-readd-same-column-in-one-run": {
+  "evolver_parts": [
+   1,
+   2
+  ],
+  "muts": [
+   [
+    "DeleteField",
+    "A",
+    "a3"
+   ],
+   [
+    "AddField",
+    "A",
+    "a3",
+    "CharField",
+    {
+     "max_length": 8,
+     "null": true
+    }
+   ]
+  ],
+  "rows": "@SEQ_ROWS",
+  "spec": "@SEQ_SPEC"
+ },
+ "C03|evolver-same-rows|initial-values-bound-in-mutation-order": {
+  "evolver_parts": [
+   1,
+   2
+  ],
+  "muts": [
+   [
+    "AddField",
+    "A",
+    "x",
+    "IntegerField",
+    {
+     "initial": 7
+    }
+   ],
+   [
+    "ChangeField",
+    "A",
+    "a2",
+    {
+     "initial": 5,
+     "null": false
+    }
+   ]
+  ],
+  "rows": "@SEQ_ROWS",
+  "spec": "@SEQ_SPEC"
+ },
+ "C03|evolver-same-rows|optimizer-collapses-column-name-chain": {
+  "evolver_parts": [
+   1,
+   2
+  ],
+  "muts": [
+   [
+    "AddField",
+    "A",
+    "y",
+    "CharField",
+    {
+     "initial": "i'%",
+     "max_length": 8
+    }
+   ],
+   [
+    "ChangeMeta",
+    "B",
+    "indexes",
+    [
+     {
+      "fields": [
+       "b1"
+      ],
+      "name": "ix_b"
+     }
+    ]
+   ],
+   [
+    "ChangeField",
+    "A",
+    "a1",
+    {
+     "null": true
+    }
+   ],
+   [
+    "AddField",
+    "B",
+    "x",
+    "CharField",
+    {
+     "initial": "i'%",
+     "max_length": 8
+    }
+   ],
+   [
+    "ChangeField",
+    "B",
+    "x",
+    {
+     "db_index": true
+    }
+   ],
+   [
+    "RenameField",
+    "A",
+    "a1",
+    "r",
+    {}
+   ],
+   [
+    "ChangeField",
+    "A",
+    "a3",
+    {
+     "initial": "n%",
+     "null": false
+    }
+   ],
+   [
+    "ChangeField",
+    "A",
+    "r",
+    {
+     "db_column": "c_r"
+    }
+   ]
+  ],
+  "rows": "@SEQ_ROWS",
+  "spec": "@SEQ_SPEC"
+ },
+ "C03|evolver-same-rows|optimizer-confuses-reused-field-names": {
+  "evolver": true,
+  "evolver_parts": [
+   2
+  ],
+  "muts": [
+   [
+    "AddField",
+    "A",
+    "x",
+    "IntegerField",
+    {
+     "initial": 7
+    }
+   ],
+   [
+    "DeleteField",
+    "A",
+    "a3"
+   ],
+   [
+    "AddField",
+    "A",
+    "a3",
+    "CharField",
+    {
+     "initial": "i'%",
+     "max_length": 8
+    }
+   ],
+   [
+    "DeleteField",
+    "A",
+    "a3"
+   ]
+  ],
+  "rows": "@SEQ_ROWS",
+  "spec": "@SEQ_SPEC"
+ },
+ "C03|evolver-same-rows|optimizer-drops-rename-back-to-existing-name": {
+  "evolver_parts": [
+   1,
+   2
+  ],
+  "muts": [
+   [
+    "RenameModel",
+    "A",
+    "C",
+    "tests_c"
+   ],
+   [
+    "SQLMutation",
+    "barrier",
+    [
+     "SELECT 1;"
+    ],
+    "sim"
+   ],
+   [
+    "RenameModel",
+    "C",
+    "A",
+    "tests_a"
+   ]
+  ],
+  "rows": "@SEQ_ROWS",
+  "spec": "@SEQ_SPEC"
+ },
+ "C03|evolver-same-rows|optimizer-merges-away-null-roundtrip": {
+  "evolver_parts": [
+   1,
+   2
+  ],
+  "muts": [
+   [
+    "RenameModel",
+    "A",
+    "C",
+    "tests_c"
+   ],
+   [
+    "ChangeField",
+    "C",
+    "a2",
+    {
+     "initial": 5,
+     "null": false
+    }
+   ],
+   [
+    "AddField",
+    "C",
+    "x",
+    "CharField",
+    {
+     "max_length": 8,
+     "null": true
+    }
+   ],
+   [
+    "ChangeField",
+    "C",
+    "a2",
+    {
+     "null": true
+    }
+   ],
+   [
+    "AddField",
+    "B",
+    "y",
+    "IntegerField",
+    {
+     "initial": 7
+    }
+   ],
+   [
+    "DeleteField",
+    "B",
+    "ref"
+   ]
+  ],
+  "rows": "@SEQ_ROWS",
+  "spec": "@SEQ_SPEC"
+ },
+ "C03|evolver-same-schema|constraints-changed-twice-in-one-run": {
+  "evolver_parts": [
+   1,
+   2
+  ],
+  "muts": [
+   [
+    "ChangeMeta",
+    "B",
+    "constraints",
+    [
+     {
+      "fields": [
+       "b1"
+      ],
+      "name": "uc_b",
+      "type": {
+       "__cls__": "UniqueConstraint"
+      }
+     }
+    ]
+   ],
+   [
+    "ChangeMeta",
+    "B",
+    "constraints",
+    []
+   ],
+   [
+    "DeleteField",
+    "A",
+    "a2"
+   ],
+   [
+    "ChangeField",
+    "A",
+    "a1",
+    {
+     "db_index": true
+    }
+   ],
+   [
+    "ChangeField",
+    "A",
+    "a1",
+    {
+     "db_index": false
+    }
+   ]
+  ],
+  "rows": "@SEQ_ROWS",
+  "spec": "@SEQ_SPEC"
+ },
+ "C03|evolver-same-schema|db-index-change-after-rebuild-op-ignored": {
+  "evolver_parts": [
+   1,
+   2
+  ],
+  "muts": [
+   [
+    "DeleteField",
+    "A",
+    "a2"
+   ],
+   [
+    "ChangeField",
+    "A",
+    "a1",
+    {
+     "db_index": true
+    }
+   ]
+  ],
+  "rows": "@SEQ_ROWS",
+  "spec": "@SEQ_SPEC"
+ },
+ "C03|evolver-same-schema|delete-and-readd-same-column-in-one-run": {
+  "evolver_parts": [
+   1,
+   2
+  ],
+  "muts": [
+   [
+    "DeleteField",
+    "A",
+    "a3"
+   ],
+   [
+    "AddField",
+    "A",
+    "a3",
+    "CharField",
+    {
+     "max_length": 8,
+     "null": true
+    }
+   ]
+  ],
+  "rows": "@SEQ_ROWS",
+  "spec": "@SEQ_SPEC"
+ },
+ "C03|evolver-same-schema|index-and-column-name-changed-in-one-run": {
+  "evolver_parts": [
+   1,
+   2
+  ],
+  "muts": [
+   [
+    "ChangeField",
+    "A",
+    "a1",
+    {
+     "db_index": true
+    }
+   ],
+   [
+    "ChangeField",
+    "A",
+    "a1",
+    {
+     "db_column": "c_a1"
+    }
+   ]
+  ],
+  "rows": "@SEQ_ROWS",
+  "spec": "@SEQ_SPEC"
+ },
+ "C03|evolver-same-schema|index-on-renamed-column-not-dropped": {
+  "evolver_parts": [
+   1,
+   2
+  ],
+  "muts": [
+   [
+    "RenameField",
+    "A",
+    "a3",
+    "r",
+    {}
+   ],
+   [
+    "ChangeMeta",
+    "A",
+    "unique_together",
+    [
+     [
+      "a1",
+      "r"
+     ]
+    ]
+   ],
+   [
+    "ChangeField",
+    "A",
+    "r",
+    {
+     "max_length": 15
+    }
+   ]
+  ],
+  "rows": "@SEQ_ROWS",
+  "spec": "@SEQ_SPEC"
+ },
+ "C03|evolver-same-schema|optimizer-collapses-column-name-chain": {
+  "evolver_parts": [
+   1,
+   2
+  ],
+  "muts": [
+   [
+    "RenameField",
+    "A",
+    "a1",
+    "r",
+    {
+     "db_column": "col_r"
+    }
+   ],
+   [
+    "ChangeField",
+    "A",
+    "r",
+    {
+     "db_column": "c_r"
+    }
+   ],
+   [
+    "ChangeField",
+    "A",
+    "r",
+    {
+     "db_index": true
+    }
+   ],
+   [
+    "ChangeField",
+    "A",
+    "a2",
+    {
+     "db_column": "c_a2"
+    }
+   ]
+  ],
+  "rows": "@SEQ_ROWS",
+  "spec": "@SEQ_SPEC"
+ },
+ "C03|evolver-same-schema|optimizer-confuses-reused-field-names": {
+  "evolver": true,
+  "evolver_parts": [
+   2
+  ],
+  "muts": [
+   [
+    "AddField",
+    "A",
+    "x",
+    "IntegerField",
+    {
+     "initial": 7
+    }
+   ],
+   [
+    "DeleteField",
+    "A",
+    "a3"
+   ],
+   [
+    "AddField",
+    "A",
+    "a3",
+    "CharField",
+    {
+     "initial": "i'%",
+     "max_length": 8
+    }
+   ],
+   [
+    "DeleteField",
+    "A",
+    "a3"
+   ]
+  ],
+  "rows": "@SEQ_ROWS",
+  "spec": "@SEQ_SPEC"
+ },
+ "C03|evolver-same-schema|optimizer-drops-rename-back-to-existing-name": {
+  "evolver_parts": [
+   1,
+   2
+  ],
+  "muts": [
+   [
+    "RenameModel",
+    "A",
+    "C",
+    "tests_c"
+   ],
+   [
+    "SQLMutation",
+    "barrier",
+    [
+     "SELECT 1;"
+    ],
+    "sim"
+   ],
+   [
+    "RenameModel",
+    "C",
+    "A",
+    "tests_a"
+   ]
+  ],
+  "rows": "@SEQ_ROWS",
+  "spec": "@SEQ_SPEC"
+ },
+ "C03|evolver-same-schema|optimizer-merges-changefield-across-type-change": {
+  "evolver_parts": [
+   1,
+   2
+  ],
+  "muts": [
+   [
+    "ChangeField",
+    "A",
+    "a2",
+    {
+     "unique": true
+    }
+   ],
+   [
+    "ChangeField",
+    "A",
+    "a2",
+    {
+     "field_type": "CharField",
+     "max_length": 12,
+     "null": true
+    }
+   ]
+  ],
+  "rows": "@SEQ_ROWS",
+  "spec": "@SEQ_SPEC"
+ },
+ "C03|evolver-same-schema|rebuild-loses-table-level-objects": {
+  "evolver_parts": [
+   1,
+   2
+  ],
+  "muts": [
+   [
+    "ChangeMeta",
+    "A",
+    "index_together",
+    [
+     [
+      "a1",
+      "a2"
+     ]
+    ]
+   ],
+   [
+    "DeleteField",
+    "A",
+    "a3"
+   ]
+  ],
+  "rows": "@SEQ_ROWS",
+  "spec": "@SEQ_SPEC"
+ },
+ "C03|evolver-same-schema|rename-model-keeps-m2m-column-names": {
+  "evolver_parts": [
+   1,
+   2
+  ],
+  "muts": [
+   [
+    "AddField",
+    "B",
+    "lnk",
+    "ManyToManyField",
+    {
+     "related_model": "tests.A"
+    }
+   ],
+   [
+    "RenameModel",
+    "A",
+    "C",
+    "tests_c"
+   ]
+  ],
+  "rows": "@SEQ_ROWS",
+  "spec": "@SEQ_SPEC"
+ },
+ "C03|evolver-same-schema|rename-model-not-tracked-in-database-state": {
+  "evolver_parts": [
+   1,
+   2
+  ],
+  "muts": [
+   [
+    "ChangeMeta",
+    "A",
+    "unique_together",
+    [
+     [
+      "a1",
+      "a3"
+     ]
+    ]
+   ],
+   [
+    "RenameModel",
+    "A",
+    "C",
+    "tests_c"
+   ],
+   [
+    "ChangeMeta",
+    "C",
+    "unique_together",
+    []
+   ]
+  ],
+  "rows": "@SEQ_ROWS",
+  "spec": "@SEQ_SPEC"
+ },
+ "C03|evolver-same-schema|unique-together-member-deleted-in-same-run": {
+  "evolver_parts": [
+   1,
+   2
+  ],
+  "muts": [
+   [
+    "ChangeMeta",
+    "A",
+    "unique_together",
+    [
+     [
+      "a1",
+      "a3"
+     ]
+    ]
+   ],
+   [
+    "DeleteField",
+    "A",
+    "a1"
+   ]
+  ],
+  "rows": "@SEQ_ROWS",
+  "spec": "@SEQ_SPEC"
+ },
+ "C03|evolver-same-signature|optimizer-collapses-column-name-chain": {
+  "evolver_parts": [
+   1,
+   2
+  ],
+  "muts": [
+   [
+    "ChangeField",
+    "A",
+    "a1",
+    {
+     "null": true
+    }
+   ],
+   [
+    "RenameField",
+    "A",
+    "a1",
+    "r",
+    {
+     "db_column": "col_r"
+    }
+   ],
+   [
+    "ChangeField",
+    "A",
+    "a2",
+    {
+     "unique": true
+    }
+   ],
+   [
+    "ChangeField",
+    "B",
+    "b1",
+    {
+     "db_index": true
+    }
+   ],
+   [
+    "ChangeField",
+    "A",
+    "r",
+    {
+     "db_column": "c_r"
+    }
+   ],
+   [
+    "AddField",
+    "A",
+    "x",
+    "CharField",
+    {
+     "initial": "i'%",
+     "max_length": 8
+    }
+   ],
+   [
+    "ChangeField",
+    "A",
+    "a3",
+    {
+     "initial": "n%",
+     "null": false
+    }
+   ],
+   [
+    "DeleteField",
+    "A",
+    "x"
+   ]
+  ],
+  "rows": "@SEQ_ROWS",
+  "spec": "@SEQ_SPEC"
+ },
+ "C03|evolver-same-signature|optimizer-confuses-reused-field-names": {
+  "evolver": true,
+  "evolver_parts": [
+   2
+  ],
+  "muts": [
+   [
+    "AddField",
+    "A",
+    "x",
+    "IntegerField",
+    {
+     "initial": 7
+    }
+   ],
+   [
+    "DeleteField",
+    "A",
+    "a3"
+   ],
+   [
+    "AddField",
+    "A",
+    "a3",
+    "CharField",
+    {
+     "initial": "i'%",
+     "max_length": 8
+    }
+   ],
+   [
+    "DeleteField",
+    "A",
+    "a3"
+   ]
+  ],
+  "rows": "@SEQ_ROWS",
+  "spec": "@SEQ_SPEC"
+ },
+ "C03|evolver-same-signature|optimizer-drops-rename-back-to-existing-name": {
+  "evolver_parts": [
+   1,
+   2
+  ],
+  "muts": [
+   [
+    "RenameModel",
+    "A",
+    "C",
+    "tests_c"
+   ],
+   [
+    "SQLMutation",
+    "barrier",
+    [
+     "SELECT 1;"
+    ],
+    "sim"
+   ],
+   [
+    "RenameModel",
+    "C",
+    "A",
+    "tests_a"
+   ]
+  ],
+  "rows": "@SEQ_ROWS",
+  "spec": "@SEQ_SPEC"
+ },
+ "C03|evolver-same-signature|optimizer-merges-changefield-across-type-change": {
+  "evolver_parts": [
+   1,
+   2
+  ],
+  "muts": [
+   [
+    "ChangeField",
+    "A",
+    "a2",
+    {
+     "unique": true
+    }
+   ],
+   [
+    "ChangeField",
+    "A",
+    "a2",
+    {
+     "field_type": "CharField",
+     "max_length": 12,
+     "null": true
+    }
+   ]
+  ],
+  "rows": "@SEQ_ROWS",
+  "spec": "@SEQ_SPEC"
+ },
+ "C03|rerun-same-result|optimizer-rewrites-mutations-in-place": {
+  "evolver_parts": [
+   1,
+   2
+  ],
+  "muts": [
+   [
+    "RenameModel",
+    "B",
+    "Aa",
+    "tests_aa"
+   ],
+   [
+    "DeleteModel",
+    "Aa"
+   ]
+  ],
+  "rows": "@SEQ_ROWS",
+  "spec": "@SEQ_SPEC"
+ }
+}
+'''
 # --- END GENERATED WITNESSES ---
 
 
@@ -5081,3 +9799,35 @@ if __name__ == '__main__':
     for suite_id in options.ids:
         outcome = SUITES[suite_id][0](options.tier, options.seed)
         print(json.dumps(H.to_jsonable(outcome), indent=1, default=repr))
+
+
+KNOWN_C03.append({
+    'id': 'optimizer-rewrites-mutations-in-place',
+    'clause': 'evolver-accepted',
+    'match': 'definitions altered and the Evolver pipeline dies with '
+             "AttributeError \"'NoneType' object has no attribute "
+             "'field_type'\" while the second processing looks up a field "
+             'under its pre-rewrite name (even when the bare optimised run '
+             'is rejected for another recorded reason)',
+    'what': 'see the other entries of this id',
+    'pred': lambda sc, ob: bool(ob.get('altered')) and
+    (ob.get('error') or {}).get('class') == 'AttributeError' and
+    "'field_type'" in ((ob.get('error') or {}).get('message') or ''),
+})
+
+# The optimiser-side causes also make the evolved schema differ from the
+# fresh one (C01 runs its sequences as one optimised batch).
+for _cause, _ref in (
+        ('optimizer-collapses-column-name-chain', 'KNOWN_C03'),
+        ('optimizer-merges-changefield-across-type-change', 'KNOWN_C03'),
+        ('rename-model-not-tracked-in-database-state', 'the '
+         'accepted-evolution-crashes entry of the same id')):
+    KNOWN_C01.append({
+        'id': _cause,
+        'clause': 'schema-equals-fresh',
+        'match': 'see %s (sequence run as one optimised batch)' % _ref,
+        'what': 'see %s' % _ref,
+        'pred': _causes_pred(_cause),
+    })
+
+_attach_witnesses()
